@@ -562,6 +562,8 @@ func (w *world) stepIdx(t *thread) error {
 	case "c07.aidx.ids":
 		w.idsDone[k] = true
 		w.acLabel(fmt.Sprintf("wi/%d", k), ev.args[0])
+	case "c07.tl.got":
+		w.acLabel(fmt.Sprintf("wg/%d", k), ev.args[0])
 	case "c07.aidx.toks":
 		w.acLabel(fmt.Sprintf("wt/%d", k), ev.args[0])
 	case "c07.aidx.queue":
